@@ -20,7 +20,10 @@ from .spec import NS
 
 
 class Binding:
-    def __init__(self, value, guards: List[Any], consts: List[Any], patterns: List[Any], ordered=False):
+    def __init__(self, value, guards: List[Any], consts: List[Any], patterns: List[Any], ordered=False, source=None,
+                 facts=None):
+        self.source = source
+        self.facts = facts or []  # definitional facts about the element (hold for every element of the domain)
         self.value = value
         self.guards = guards
         self.consts = consts
@@ -50,7 +53,7 @@ def bind_domain(engine, ctx, it) -> Binding:
         return Binding(x, [z3.Select(it.term, x)], [x], [z3.Select(it.term, x)])
     if isinstance(it, SymSeq):
         i = ctx.fresh("i", z3.IntSort())
-        return Binding(it.at(ctx, i), [i >= 0, i < it.length], [i], [z3.Select(it.arr, i)], ordered=True)
+        return Binding(it.at(ctx, i), [i >= 0, i < it.length], [i], [z3.Select(it.arr, i)], ordered=True, source=it)
     if isinstance(it, V.RangeV):
         if it.step != 1:
             raise EngineLimit("range with a step")
@@ -67,11 +70,68 @@ def bind_domain(engine, ctx, it) -> Binding:
             seq = st.seq_of_sets(ctx, [engine.to_symset(ctx, s) for s in seq.items])
         g = z3.Select(st.nsum(seq.arr, seq.length), x)
         return Binding(V.ComboTuple(x), [g], [x], [g])
+    if isinstance(it, V.GroupValues):
+        return bind_group(engine, ctx, it.d)
     if isinstance(it, V.MappedIter):
         b = bind_domain(engine, ctx, it.it)
         val = apply_mapped(engine, ctx, it, b.value)
-        return Binding(val, b.guards, b.consts, b.patterns, b.ordered)
+        return Binding(val, b.guards, b.consts, b.patterns, b.ordered, facts=b.facts)
     raise EngineLimit("iteration over %r" % (it,))
+
+
+def fresh_fn(ctx, base: str, arg_sorts, ret_sort):
+    """A fresh function symbol that (like ctx.fresh) depends on the bound variables in scope."""
+    ctx.counter += 1
+    name = "%s!%d" % (base, ctx.counter)
+    f = z3.Function(name, *[b.sort() for b in ctx.bound], *arg_sorts, ret_sort)
+    bound = list(ctx.bound)
+    return lambda *args: f(*bound, *args)
+
+
+def bind_group(engine, ctx, d: V.GroupDict) -> Binding:
+    """One arbitrary group of a GroupDict: the order-preserving subsequence of the source with the key of a
+       representative index `rep`."""
+    if d.src is None:
+        raise EngineLimit("iteration over an unfilled defaultdict")
+    src = d.src
+    n = src.length
+    rep = ctx.fresh("rep", z3.IntSort())
+    keyat = lambda i: z3.substitute(d.key, (d.const, i))
+    K = keyat(rep)
+    guards = [rep >= 0, rep < n]
+    sub = SymSeq(ctx.fresh("group!arr", src.arr.sort()), ctx.fresh("group!len", z3.IntSort()), src.kind, fresh=True)
+    # the facts below mention `rep`; they are stated as guards so that they are generalised with the binding
+    idx = fresh_fn(ctx, "group!idx", [z3.IntSort()], z3.IntSort())
+    inv = fresh_fn(ctx, "group!inv", [z3.IntSort()], z3.IntSort())
+    # NB: sub/idx/inv are created *before* rep is added to ctx.bound by the caller, therefore they must be
+    # explicitly functions of rep: recreate them as functions applied to rep
+    ctx.counter += 1
+    tagn = ctx.counter
+    outer = list(ctx.bound)
+    F_arr = z3.Function("grp!arr!%d" % tagn, *[b.sort() for b in outer], z3.IntSort(), src.arr.sort())
+    F_len = z3.Function("grp!len!%d" % tagn, *[b.sort() for b in outer], z3.IntSort(), z3.IntSort())
+    F_idx = z3.Function("grp!idx!%d" % tagn, *[b.sort() for b in outer], z3.IntSort(), z3.IntSort(), z3.IntSort())
+    F_inv = z3.Function("grp!inv!%d" % tagn, *[b.sort() for b in outer], z3.IntSort(), z3.IntSort(), z3.IntSort())
+    arr = F_arr(*outer, rep)
+    ln = F_len(*outer, rep)
+    idx = lambda j: F_idx(*outer, rep, j)
+    inv = lambda i: F_inv(*outer, rep, i)
+    sub = SymSeq(arr, ln, src.kind, fresh=True)
+    j, j2, i = z3.Ints("gj gj2 gi")
+    facts = [
+        ln >= 1,
+        z3.ForAll([j], z3.Implies(z3.And(0 <= j, j < ln),
+                                  z3.And(0 <= idx(j), idx(j) < n, keyat(idx(j)) == K,
+                                         z3.Select(arr, j) == z3.Select(src.arr, idx(j)))),
+                  patterns=[z3.Select(arr, j)]),
+        z3.ForAll([j, j2], z3.Implies(z3.And(0 <= j, j < j2, j2 < ln), idx(j) < idx(j2)),
+                  patterns=[z3.MultiPattern(idx(j), idx(j2))]),
+        z3.ForAll([i], z3.Implies(z3.And(0 <= i, i < n, keyat(i) == K),
+                                  z3.And(0 <= inv(i), inv(i) < ln, idx(inv(i)) == i,
+                                         z3.Select(arr, inv(i)) == z3.Select(src.arr, i))),
+                  patterns=[z3.Select(src.arr, i)]),
+    ]
+    return Binding(sub, guards, [rep], [z3.Select(src.arr, rep)], ordered=False, source=d, facts=facts)
 
 
 def apply_mapped(engine, ctx, m: V.MappedIter, value):
@@ -151,8 +211,24 @@ def _covers_all(ps, vs) -> bool:
     return all(v.get_id() in acc for v in vs)
 
 
+
+def state_binding_facts(ctx, b: Binding):
+    """The definitional facts of a binding hold for every element of the domain: assume them universally."""
+    if not b.facts:
+        return
+    vs = [z3.FreshConst(c.sort(), "e") for c in b.consts]
+    sub = list(zip(b.consts, vs))
+    g = z3.And(*[z3.substitute(x, *sub) for x in b.guards]) if b.guards else z3.BoolVal(True)
+    pp = [z3.substitute(p, *sub) for p in b.patterns]
+    pat = []
+    if pp and _covers_all(pp, vs):
+        pat = [z3.MultiPattern(*pp)] if len(pp) > 1 else [pp[0]]
+    ctx.assume(z3.ForAll(vs, z3.Implies(g, z3.And(*[z3.substitute(f, *sub) for f in b.facts])), patterns=pat))
+
+
 def run_under_binding(engine, ctx, b: Binding, body):
     """Execute `body()` with the bound constants of `b` in scope; generalise learnt facts afterwards."""
+    state_binding_facts(ctx, b)
     outermost = ctx.collector is None
     if outermost:
         ctx.collector = Collector()
@@ -161,12 +237,14 @@ def run_under_binding(engine, ctx, b: Binding, body):
     ctx.bound_guards = ctx.bound_guards + b.guards
     ctx.bound_patterns = ctx.bound_patterns + b.patterns
     ctx.gen_facts = []
+    ctx.bindings.append(b)
     decisions_before = len(ctx.taken)
     for g in b.guards:
         ctx.pc.append(g)
     try:
         result = body()
     finally:
+        ctx.bindings.pop()
         facts = ctx.gen_facts
         bound_now, guards_now, pats_now = ctx.bound, ctx.bound_guards, ctx.bound_patterns
         ctx.bound, ctx.bound_guards, ctx.bound_patterns, ctx.gen_facts, pclen = saved
@@ -244,6 +322,8 @@ def exec_for(engine, ctx, st: ast.For, env: Env):
         return exec_for_invariant(engine, ctx, st, env, it, inv)
     if st.orelse:
         raise EngineLimit("for/else over a symbolic domain")
+    if not mutates_outer_collections(st.body, env):
+        return exec_forall(engine, ctx, st, env, it)
     b = bind_domain(engine, ctx, it)
     before = set(env.vars.keys())
     snapshot = dict(env.vars)
@@ -640,3 +720,133 @@ def filter_iter(engine, ctx, fn, it):
                 out.append(x)
         return PyList(out)
     raise EngineLimit("filter over a symbolic domain")
+
+
+# ----------------------------------------------------------------------------------------------------------------
+MUTATORS = {"add", "append", "extend", "update", "remove", "discard", "clear", "pop", "insert", "setdefault"}
+
+
+def mutates_outer_collections(stmts, env: Env) -> bool:
+    """Syntactic test: does the loop body mutate a collection bound outside the loop (set building / grouping)?"""
+    local = set(assigned_names(stmts))
+
+    def root_name(e):
+        while isinstance(e, (ast.Attribute, ast.Subscript)):
+            e = e.value
+        return e.id if isinstance(e, ast.Name) else None
+
+    for st in stmts:
+        for node in ast.walk(st):
+            if isinstance(node, ast.Call) and isinstance(node.func, ast.Attribute) and node.func.attr in MUTATORS:
+                r = root_name(node.func.value)
+                if r is not None and r not in local:
+                    return True
+            if isinstance(node, ast.AugAssign):
+                r = root_name(node.target)
+                if r is not None and r not in local:
+                    return True
+            if isinstance(node, ast.Assign):
+                for t in node.targets:
+                    if isinstance(t, (ast.Subscript, ast.Attribute)):
+                        r = root_name(t)
+                        if r is not None and r not in local:
+                            return True
+    return False
+
+
+def exec_forall(engine, ctx, st: ast.For, env: Env, it):
+    """`for x in D: body` where the body has no effect other than possibly raising.
+       Either some element makes the body raise (witness path), or the body completes normally for all elements."""
+    before = set(env.vars.keys())
+    snapshot = dict(env.vars)
+
+    def run_body(value):
+        engine.assign(ctx, st.target, value, env)
+        try:
+            engine.exec_block(ctx, st.body, env)
+        except ContinueSig:
+            pass
+        except BreakSig:
+            raise EngineLimit("break in a loop over a symbolic domain (no invariant given)")
+        except ReturnSig:
+            raise EngineLimit("return inside a loop over a symbolic domain (no invariant given)")
+
+    def cleanup():
+        for n in list(env.vars.keys()):
+            if n not in before:
+                del env.vars[n]
+            elif env.vars[n] is not snapshot[n]:
+                raise EngineLimit("variable %r rebound in a loop over a symbolic domain without invariant" % n)
+
+    which = ctx.choose(2)
+    if which == 0:
+        # witness path: one arbitrary element; every path through the body is explored, obligations are recorded,
+        # raising paths propagate; normally completing paths are covered by the other choice
+        b = bind_domain(engine, ctx, it)
+        for g in b.guards + b.facts:
+            ctx.assume(g)
+        run_body(b.value)
+        raise PathEnd()
+    # all elements complete normally: summarise the body
+    b = bind_domain(engine, ctx, it)
+    state_binding_facts(ctx, b)
+    normal = summarise_block(engine, ctx, b, lambda: run_body(b.value), cleanup)
+    vs = [z3.FreshConst(c.sort(), "e") for c in b.consts]
+    sub = list(zip(b.consts, vs))
+    g = z3.And(*[z3.substitute(x, *sub) for x in b.guards]) if b.guards else z3.BoolVal(True)
+    body = z3.substitute(z3.Or(*normal) if normal else z3.BoolVal(False), *sub)
+    pp = [z3.substitute(p, *sub) for p in b.patterns]
+    pat = []
+    if pp and _covers_all(pp, vs):
+        pat = [z3.MultiPattern(*pp)] if len(pp) > 1 else [pp[0]]
+    ctx.assume(z3.ForAll(vs, z3.Implies(g, body), patterns=pat))
+    cleanup()
+
+
+def summarise_block(engine, ctx, b: Binding, run, cleanup) -> List[Any]:
+    """Explore all paths of an effect-free block for an arbitrary element of the binding; return the local path
+       conditions of the normally completing ones.  Obligations are not recorded here (the witness path records them)."""
+    saved = (ctx.prefix, ctx.taken, ctx.pending)
+    saved_bound = (list(ctx.bound), list(ctx.bound_guards), list(ctx.bound_patterns), ctx.gen_facts)
+    base_len = len(ctx.pc)
+    n_obl = len(ctx.obligations)
+    normal: List[Any] = []
+    work: List[List[int]] = [[]]
+    guard_len = None
+    count = 0
+    try:
+        while work:
+            count += 1
+            if count > 400:
+                raise EngineLimit("too many paths in a loop body summary")
+            pre = work.pop()
+            ctx.prefix, ctx.taken, ctx.pending = pre, [], []
+            ctx.bound = saved_bound[0] + b.consts
+            ctx.bound_guards = saved_bound[1] + b.guards
+            ctx.bound_patterns = saved_bound[2] + b.patterns
+            ctx.gen_facts = []
+            for g in b.guards + b.facts:
+                ctx.pc.append(g)
+            guard_len = len(ctx.pc)
+            counter0 = ctx.counter
+            ctx.spec_mode += 1  # suppress obligations
+            ctx.summary_depth = getattr(ctx, "summary_depth", 0) + 1
+            try:
+                run()
+                local = ctx.pc[guard_len:]
+                normal.append(z3.And(*local) if local else z3.BoolVal(True))
+            except PyRaise:
+                pass
+            except PathEnd:
+                pass
+            finally:
+                ctx.spec_mode -= 1
+                ctx.summary_depth -= 1
+                del ctx.pc[base_len:]
+                cleanup()
+            work.extend(ctx.pending)
+    finally:
+        ctx.prefix, ctx.taken, ctx.pending = saved
+        ctx.bound, ctx.bound_guards, ctx.bound_patterns, ctx.gen_facts = saved_bound
+        del ctx.obligations[n_obl:]
+    return normal
